@@ -2,6 +2,7 @@ package main
 
 import (
 	"fmt"
+	"go/ast"
 	"go/token"
 	"go/types"
 	"sort"
@@ -519,6 +520,9 @@ func (ex *Exec) step(st *State, fr *Frame, in ssa.Instruction, b *ssa.BasicBlock
 			return nil
 		}
 		ref := ex.newRef(st, sanitizeName(x.Comment), ex.env.typeKey(elemT))
+		if pt := ex.structPtr(x.Type()); pt != nil {
+			st.assume(Eq(ex.dtype(ref), ex.typeTag(pt)))
+		}
 		ex.initObject(st, ref, elemT)
 		st.regs[x] = scalar(ref)
 		return nil
@@ -585,6 +589,10 @@ func (ex *Exec) step(st *State, fr *Frame, in ssa.Instruction, b *ssa.BasicBlock
 		stT := ex.env.resolve(x.X.Type().Underlying().(*types.Pointer).Elem())
 		stru := stT.Underlying().(*types.Struct)
 		f := stru.Field(x.Field)
+		if isOpaqueNamed(stT) || (base.Loc != nil && base.Loc.Dummy) {
+			st.regs[x] = &Val{Loc: &Loc{Kind: LCell, Dummy: true, Type: f.Type()}}
+			return nil
+		}
 		ex.nilCheck(st, base, x, "field "+f.Name())
 		var loc Loc
 		if base.Loc != nil {
@@ -930,6 +938,21 @@ func (ex *Exec) doReturn(st *State, fr *Frame, rs []*Val, in ssa.Instruction) {
 	}
 	spec := ex.spec
 	fname := ex.fnName()
+	// ghost assignments at exit
+	if len(spec.GhostExit) > 0 {
+		gctx := ex.specCtx(st, ex.entry, fr)
+		res0 := fr.fn.Signature.Results()
+		for i := 0; i < res0.Len(); i++ {
+			sv := &SV{V: rs[i], T: res0.At(i).Type()}
+			gctx.names[fmt.Sprintf("r%d", i)] = sv
+			if i < len(spec.ResultNames) {
+				gctx.names[spec.ResultNames[i]] = sv
+			}
+		}
+		for _, ga := range spec.GhostExit {
+			ex.ghostAssign(st, gctx, ga)
+		}
+	}
 	// bind results
 	ctx := ex.specCtx(st, ex.entry, fr)
 	res := fr.fn.Signature.Results()
@@ -1035,4 +1058,32 @@ func (ex *Exec) addSpecAxioms(st *State, fr *Frame) {
 			ex.trusted["axiom "+shortKey(ax.PkgPath)+"."+ax.Name+": "+ax.Body.Src] = true
 		}()
 	}
+}
+
+// ghostAssign executes  lhs := rhs  on ghost state (ghost fields only).
+func (ex *Exec) ghostAssign(st *State, c *SpecCtx, ga *GhostAssign) {
+	sel, ok := ga.LHS.(*ast.SelectorExpr)
+	if !ok {
+		c.fail("ghostexit: left side must be a ghost field x.f (%s)", ga.Src)
+	}
+	base := c.eval(sel.X)
+	bt := ex.env.resolve(base.T)
+	gf := ex.ghostField(bt, sel.Sel.Name)
+	if gf == nil {
+		c.fail("ghostexit: %s is not a ghost field", sel.Sel.Name)
+	}
+	// evaluate the right side first (in the current state)
+	rhs := c.eval(ga.RHS)
+	ex.withOwnerArgs(bt, func() {
+		gt := ex.substType(c.resolveGhostType(gf))
+		gb, field := ex.ghostOwner(gf)
+		loc := &Loc{Kind: LHeap, Ref: ex.valTerm(base.V), Base: gb, PathS: "." + field, Type: gt}
+		var v *Val
+		if rhs.Const != nil {
+			v = scalar(c.term(rhs, ex.env.scalarSort(gt)))
+		} else {
+			v = rhs.V
+		}
+		ex.storeLoc(st, loc, v)
+	})
 }
